@@ -2,6 +2,8 @@ import QR.Model.Compile
 import QR.Spec.Reader
 import QR.Spec.Penalty
 import QR.Spec.MaskChoice
+import QR.Model.Segment
+import QR.Spec.Segmentation
 /-
 Line-protocol driver (native executable `qrdrv`, Mathlib-free).
 One request per line: `<op> <arg> ...` (whitespace separated); one reply per line.
@@ -172,6 +174,22 @@ def handle (toks : List String) : Option String :=
       let xs ← xs.mapM parseNat
       let (_, pattern) := (List.range xs.length).foldl (fun (st : Nat × Nat) i => pickMask st i (xs.getD i 0)) (0, 0)
       pure s!"ok {pattern} {Spec.argminFirst xs.length fun i => xs.getD i 0}"
+  | ["adddata", d, n] => do
+      let d ← parseList d; let n ← parseNat n
+      pure ("ok " ++ (let l := addData d n; if l.isEmpty then "-" else ";".intercalate (l.map fun s => s!"{s.mode}:{fmtList s.data}")))
+  | ["optimalmode", d] => do let d ← parseList d; pure ("ok " ++ toString (optimalMode d))
+  | ["qrdata", d, m, c] => do
+      let d ← parseList d; let c ← parseBool c
+      let m ← if m = "-" then some none else (parseNat m).map some
+      pure (reply ((mkQRData d m c).map fun s => s!"{s.mode}:{fmtList s.data}"))
+  | ["spec.segmentation", n, d, segs] => do
+      let n ← parseNat n; let d ← parseList d; let segs ← parseSegs segs
+      match segs.mapM fun s => (Spec.Mode.ofIndicator s.mode).map fun m => ({ mode := m, data := s.data } : Spec.PSeg) with
+      | none => pure "fail unknown-mode"
+      | some ps =>
+        let v := Spec.segmentation n d ps
+        let b (x : Bool) := if x then "1" else "0"
+        pure s!"ok {b v.lossless} {b v.valid} {b v.thresholdZero} {b v.runsCarried} {b v.minLength}"
   | ["spec.penalty", m] => do let m ← parseBMat m; pure ("ok " ++ toString (Spec.penalty m))
   | ["spec.n1", m] => do let m ← parseBMat m; pure ("ok " ++ toString (Spec.N1 m m.length))
   | ["spec.n2", m] => do let m ← parseBMat m; pure ("ok " ++ toString (Spec.N2 m))
